@@ -33,6 +33,12 @@ CHECKS = {
  'C06': dict(cat='exploration', tech='exhaustive enumeration of placements of 1..3 value-producing side-effect operations into 26 syntactic positions x bounded exhaustive states; IL machine vs C11 reference',
              text='Each operation of {v++, v--, value-returning call, void call with visible effect, statement-expression} is placed in every position (initialiser, operands, conditions, loop step, arguments, ?: condition/arms, unused statement, branch arms, loop bodies, store/register/jump operands) and all ordered pairs in 10 two-operation shapes, between statements that observe the touched variables; final state must equal the C reference, which counts evaluations exactly; programs with C-level unsequenced modification are detected statically and skipped.',
              note='Trusted: ILVM lazy ITE and call-by-name callee instantiation in the flat local namespace; the static unsequenced-modification detector of the reference is conservative (skips, never alarms).', ref='4 C06'),
+ 'C13': dict(cat='model_checking', engine='vf/hist.py', tech='explicit-state breadth-first search over histories of real transform_insn calls (forked-child replay, canonical state digest) plus exhaustive pass over the corpus; attribute oracle computed from the part text by an independent AST walk',
+             text='Events are transform_insn calls of 16 attribute-relevant behaviours (if, .new via letter/explicit/alias, load, store, jump, predicate writes by letter and by number, a two-part instruction, a failing input, a no-op-listed name) on compiler instance A or B; all histories are explored breadth-first until no new state appears (quick: depth 3), each replayed from the initial process state in a forked child; on every transition the reported attribute list must be exactly the set implied by the last event\'s own text. All accepted corpus parts are checked from a fresh state against the same oracle.',
+             note='Trusted: vf/attrs.py (the property\'s definition of each attribute); state digest abstraction (drops result caches and diagnostic counters that no compile path reads).', ref='4 C13'),
+ 'C14': dict(cat='model_checking', engine='vf/hist.py', tech='explicit-state breadth-first search over histories of real compile calls through all public entry points on two compiler instances (forked-child replay, canonical state digest), differential oracle against the fresh-process result',
+             text='Events = (entry point in transform_insn / compile_insn / compile_c_stmt / add_sub_routine+call) x (instance A or B) x 14 behaviours chosen so that every item of persistent state is written by some event (temporaries, predicate writes, calls, unsigned/const declarations, immediates, statement-expressions, a parse error, a late unsupported construct, a type error, an unknown call). All histories are explored until the state space closes (13 states; quick bound depth 4, thorough 8 plus all ordered pairs of a 200-instruction corpus slice); on every transition the last event\'s output (modulo comments and consistent renaming of temporaries) and attributes must equal what the same behaviour gives as the only event of a fresh process.',
+             note='Trusted: fork as snapshot/restore; the digest drops compiled_insns/parsed_insns (never read by a compile path), the temporary counter (outputs are compared modulo renaming) and the missing_fcns diagnostic counter.', ref='4 C14'),
  'C18': dict(cat='model_checking', engine='vf/vpool.py', tech='stateless exhaustive exploration of all schedules of a controlled process pool (assignment of tasks to workers x completion order) driving the real Parser.parse, with conformance runs through the real multiprocessing.Pool',
              text='multiprocessing.Pool is replaced from outside by a controlled pool whose every decision (which idle worker takes the next task, which completed result is delivered next) is a choice point; all schedules for task lists of up to 4 behaviours over a 6-letter alphabet (one-part, two-part, slow, syntactically broken, lexically broken, empty) on 1..3 real forked workers are enumerated and the result of the real Parser.parse must equal sequential parse_single under every schedule; every task list is also run through the real pool with sizes 1..16.',
              note='Trusted: vf/vpool.py implements imap/imap_unordered/map/apply_async to stdlib semantics (self-test compares each API with the real pool on every run); symmetry reduction: idle workers with equal task histories are interchangeable.', ref='4 C18'),
